@@ -85,6 +85,44 @@ def run(tier):
             # location, which the model - it has no locations - does not reproduce; the multisets were compared above)
             mism += 1
             ck.violation("tie-broken:correspondence-order", "model and implementation list different codes/orders (model %s, real %s) though the verdict agrees" % (mm["model"], real), src)
+    # "forward jumps to unique labels are accepted": bodies that also declare and use variables between gotos and
+    # labels (the stages that run after the label scoper see its output).  A program is accepted exactly when the
+    # three specifications (labels: this property; variables: C05; syntax: C06) have nothing to report, and the
+    # label codes are exactly those of the label specification
+    import re
+    rng2 = random.Random(ck.seed + 44)
+    vb = [("v%d" % i, G.program(G.smart_body(rng2, 3, rng2.randint(2, 14), ['r', 'p'], ['a', 'b', 'c', 'return'])).replace("fn main() -> i32", "fn main(p: i32) -> i32")) for i in range(1500 if tier == "quick" else 40000)]
+    vimpl = C.run_harness("front", vb, ck.work + "/vars")
+    vitems = []
+    for cid, _ in vb:
+        f = vimpl.get(cid)
+        if f and len(f) >= 3 and f[1].startswith("("):
+            vitems += [("labels", cid + "L", f[1]), ("syntax", cid + "S", f[1]), ("vars", cid + "V", f[2])]
+    vmodel = C.run_model(vitems, ck.work + "/vars")
+    vstats = collections.Counter()
+    for cid, src in vb:
+        f = vimpl.get(cid, ["missing"])
+        if not (f[0].startswith("ok") or f[0].startswith("err codes=")):
+            ck.violation("impl-failure:" + f[0].split(" ")[0], "implementation did not produce a verdict: " + f[0], src); continue
+        real = [] if f[0].startswith("ok") else [x for x in f[0][len("err codes="):].strip("[]").split(",") if x]
+        specs = {}
+        for suffix in "LSV":
+            sp = re.search(r"spec=\[([0-9,]*)\]", vmodel.get(cid + suffix, ""))
+            if sp is None:
+                specs = None; break
+            specs[suffix] = [x for x in sp.group(1).split(",") if x]
+        if specs is None:
+            ck.violation("tie-broken:model-error", "a specification could not be evaluated", src); continue
+        clean = not (specs["L"] or specs["S"] or specs["V"])
+        vstats["accepted" if not real else "rejected"] += 1
+        if clean and real:
+            mism += 1; ck.violation("valid-rejected", "a body whose jumps are all forward to unique labels of the same or an enclosing block, with no variable skipped or out of scope and no misplaced statement, is rejected with %s" % real,
+                                    "source:\n%s\nshape: %s" % (src, f[1]))
+        elif not clean and not real:
+            mism += 1; ck.violation("wrong-verdict", "accepted although the specifications report labels %s, syntax %s, variables %s" % (specs["L"], specs["S"], specs["V"]), "source:\n%s\nshape: %s" % (src, f[1]))
+        elif sorted(x for x in real if x in ("400", "420")) != sorted(specs["L"]) and not specs["S"]:
+            mism += 1; ck.violation("wrong-verdict", "label codes %s, the specification requires %s" % ([x for x in real if x in ("400", "420")], specs["L"]), "source:\n%s\nshape: %s" % (src, f[1]))
+    ck.log("bodies with variables: %d %s" % (len(vb), dict(vstats)))
     if not proof_ok:
         ck.violation("tie-broken:proof", "Props/C04.v no longer checks", getattr(ck, "proof_output", "")[-2000:])
     ck.coverage.update(
